@@ -39,13 +39,47 @@ def generate(module: str, cfg: str, name: str, *, simulate: str | None = None,
     return out, r
 
 
+CHUNK_BYTES = 30_000_000      # one TLC run per <= 30 MB of trace JSON: a 200 MB batch made the JVM thrash (GC) for 25+ min
+
+
+class _Agg:
+    def __init__(self):
+        self.distinct = self.generated = self.rc = 0
+        self.out = ""
+        self.wall = 0.0
+
+
 def monitor(module: str, cfg: str, name: str, traces: list[dict], *, workers=16,
             timeout=900, header=None) -> tuple[dict, object]:
     """Validate recorded traces with a Trace_* monitor.  Returns
-    {tid: [(event_index, clause, detail), ...]} - one entry per trace."""
-    wd = workdir("mon-" + name)
+    {tid: [(event_index, clause, detail), ...]} - one entry per trace.
+    Large batches are cut into chunks (the monitor judges each trace on its own, so chunking changes nothing)."""
     for t in traces:
         t.setdefault("owner", "M")
+    chunks, cur, size = [], [], 0
+    for t in traces:
+        n = len(json.dumps(t))
+        if cur and size + n > CHUNK_BYTES:
+            chunks.append(cur)
+            cur, size = [], 0
+        cur.append(t)
+        size += n
+    if cur:
+        chunks.append(cur)
+    verdicts, agg = {}, _Agg()
+    for k, chunk in enumerate(chunks):
+        v, r = _monitor_chunk(module, cfg, name if len(chunks) == 1 else f"{name}-part{k + 1}", chunk,
+                              workers=workers, timeout=timeout, header=header)
+        verdicts.update(v)
+        agg.distinct += r.distinct
+        agg.generated += r.generated
+        agg.wall += r.wall
+        agg.out = r.out
+    return verdicts, agg
+
+
+def _monitor_chunk(module, cfg, name, traces, *, workers, timeout, header):
+    wd = workdir("mon-" + name)
     doc = {"traces": traces}
     if header:
         doc.update(header)
@@ -66,4 +100,8 @@ def monitor(module: str, cfg: str, name: str, traces: list[dict], *, workers=16,
         raise MachineryError(
             f"monitor {module}: rc={r.rc}, {len(verdicts)}/{len(want)} verdicts, "
             f"missing e.g. {missing}\n" + "\n".join(r.out.splitlines()[-40:]))
+    try:
+        f.unlink()          # hundreds of MB per run otherwise; failing traces are kept in evidence/replay by the caller
+    except OSError:
+        pass
     return verdicts, r
